@@ -1410,10 +1410,10 @@ func runC07(c *Ctx) {
 						}
 						sh := c07Shapes(r, size, which)
 						for oi, o := range opts {
-							if !c.Thorough() && oi != (size/3)%len(opts) && r.IntN(5) != 0 {
-								continue
+							if oi != (size/3)%len(opts) && r.IntN(c.N(5, 3)) != 0 {
+								continue // every (size, shape) gets one option set in rotation plus a random 1/5 (thorough 1/3) of the others
 							}
-							c.c07Marshal(l, r, sh, o, c.N(3, 8))
+							c.c07Marshal(l, r, sh, o, c.N(3, 6))
 						}
 						// token-level scripts from the compact encoding of the same value
 						if size <= 3000 && (c.Thorough() || r.IntN(6) == 0) {
@@ -1498,8 +1498,8 @@ func runC07(c *Ctx) {
 		}
 	}
 	c.Note("encoded sizes 0..%d: %d distinct sizes produced, largest gap %d", maxSize, covered, maxGap)
-	c.HitN("MarshalJSONTo:empty-member-written-in-streaming-run", c07Stat.emptyAfterFlush.Load())
-	c.HitN("MarshalJSONTo:empty-member-written-while-flush-due(suppressed)", c07Stat.emptyFlushDue.Load())
+	c.HitN("MarshalJSONTo:omitempty-member-written-in-streaming-run", c07Stat.emptyAfterFlush.Load())
+	c.HitN("MarshalJSONTo:omitempty-member-written-while-flush-due(suppressed)", c07Stat.emptyFlushDue.Load())
 	c.Note("a writer that returns n < len(p) with a nil error violates the io.Writer contract; Flush treats it as success and drops the tail (not exercised as a predicate)")
 	c.Sample(map[string]any{"predicate": "concat(writes) == Marshal(v) (+\\n for an Encoder); faulty writer: error returned, accepted is a prefix; token Encoder: accepted ++ buffered equal to the fault-free run after every call"})
 }
